@@ -74,6 +74,8 @@ class Expect:
             parts = []
             allzero = True
             for f in td["fields"]:
+                if f["name"] == "_":          # blank fields are not part of the program's description of a value
+                    continue
                 if f["name"] in sel:
                     v = self.desc(sel[f["name"]], depth + 1)
                 else:
